@@ -2,7 +2,11 @@
 """run the registered checks against every seeded change:  mutation_matrix.py [--tier quick] [ids...]
    applies seeded/<id>/patch.diff to /repo, runs ./check for the property it targets (plus --also ones), reverts. Writes seeded/MATRIX.json."""
 import sys, os, json, subprocess, glob, time
-V = os.path.dirname(os.path.dirname(os.path.abspath(__file__))); REPO = os.environ.get('VERIF_REPO', '/repo'); tier = 'quick'; args = sys.argv[1:]
+V = os.path.dirname(os.path.dirname(os.path.abspath(__file__)))
+# never touches /repo: the changes are applied to a scratch worktree (VERIF_REPO, default /tmp/repo_mut, created on demand) and evidence/work go to scratch directories
+REPO = os.environ.get('VERIF_REPO', '/tmp/repo_mut'); os.environ['VERIF_REPO'] = REPO; os.environ.setdefault('VERIF_WORK', REPO + '.work'); os.environ.setdefault('VERIF_EVIDENCE_DIR', REPO + '.evidence')
+if not os.path.exists(REPO): subprocess.run(['git', '-C', '/repo', 'worktree', 'add', '--detach', '-f', REPO, 'HEAD'], check=True, stdout=subprocess.DEVNULL)
+os.makedirs(os.environ['VERIF_EVIDENCE_DIR'], exist_ok=True); tier = 'quick'; args = sys.argv[1:]
 if '--tier' in args: i = args.index('--tier'); tier = args[i + 1]; del args[i:i + 2]
 man = json.load(open(V + '/MANIFEST.json')); claimed = {c['property_id'] for c in man['checks']}
 ALSO = {'C05': ['C08', 'C07', 'C01'], 'C02': ['C04', 'C01'], 'C04': ['C02'], 'C17': ['C01'], 'C03': ['C01', 'C02']}
